@@ -1746,6 +1746,14 @@ func (te *TemplateEngine) replaceVariablesInXMLPart(xmlData []byte, data *Templa
 
 // escapeXMLContent 转义XML特殊字符
 func (te *TemplateEngine) escapeXMLContent(s string) string {
+	// XML 1.0 不允许的字符（控制字符、无效UTF-8等）替换为 U+FFFD，与 encoding/xml 的处理一致，
+	// 否则页眉页脚部件将不是格式良好的XML
+	s = strings.Map(func(r rune) rune {
+		if r == 0x9 || r == 0xA || r == 0xD || (r >= 0x20 && r <= 0xD7FF) || (r >= 0xE000 && r <= 0xFFFD) || (r >= 0x10000 && r <= 0x10FFFF) {
+			return r
+		}
+		return 0xFFFD
+	}, s)
 	s = strings.ReplaceAll(s, "&", "&amp;")
 	s = strings.ReplaceAll(s, "<", "&lt;")
 	s = strings.ReplaceAll(s, ">", "&gt;")
